@@ -5,6 +5,7 @@ import (
 	"fmt"
 	"sort"
 	"strings"
+	"time"
 
 	"github.com/tychoish/fun/pubsub"
 	"verif/simrt"
@@ -50,9 +51,14 @@ type brokerSetup struct {
 	buf      int
 	capacity int
 	cancel   context.CancelFunc
+	ctx      context.Context
 }
 
 var brokerKinds = []string{"channel", "queue-unlimited", "deque-unlimited", "queue-bounded", "deque-bounded", "lifo"}
+
+// brokerDeadline, when > 0, gives the next broker a parent context that
+// expires on the fake clock (C09's deadline family).
+var brokerDeadline time.Duration
 
 func makeBroker(w *W) *brokerSetup {
 	bs := &brokerSetup{}
@@ -68,7 +74,12 @@ func makeBroker(w *W) *brokerSetup {
 	bs.capacity = capacity
 	opts := pubsub.BrokerOptions{BufferSize: bs.buf, ParallelDispatch: bs.parallel, WorkerPoolSize: bs.workers}
 	bctx, cancel := context.WithCancel(w.Ctx)
+	if brokerDeadline > 0 {
+		bctx, cancel = context.WithTimeout(w.Ctx, brokerDeadline)
+		brokerDeadline = 0
+	}
 	bs.cancel = cancel
+	bs.ctx = bctx
 	switch kind {
 	case 0:
 		bs.b = pubsub.NewBroker[int](bctx, opts)
@@ -310,6 +321,13 @@ func c08Run(w *W) {
 
 func c09Run(w *W) {
 	h := &Hist{}
+	// deadline family: the broker's parent context expires on the fake clock,
+	// which the scheduler may advance in the middle of the workload
+	deadline := w.wl.ClockJump > 0
+	if deadline {
+		brokerDeadline = time.Duration(1+simrt.Choose(40)) * time.Millisecond
+		w.Fault("parent-deadline")
+	}
 	bs := makeBroker(w)
 	faulty := w.faulty()
 	pubs, subs := brokerWorkload(w, h, bs, faulty)
@@ -320,6 +338,9 @@ func c09Run(w *W) {
 	nCallerCancel := 0
 	if faulty {
 		stopMode = simrt.Choose(3)
+		if deadline {
+			stopMode = 0 // the deadline is the stop
+		}
 		stopAt = simrt.Choose(200)
 		waitEarly = simrt.Choose(3) == 0
 		statsCancel = simrt.Choose(2) == 0
@@ -341,8 +362,25 @@ func c09Run(w *W) {
 	}
 	stopped := false
 	stopReturned := false
+	stopStep := 0
+	w.After = func(res *simrt.Result) {
+		// bounded liveness once the faults have stopped: the shutdown was
+		// issued (or the deadline passed) thousands of steps ago, every harness
+		// task has a bounded script, and the run still has not come to rest
+		if res.Budget && stopStep > 0 && res.Steps-stopStep > 3000 {
+			w.Probe("budget-exhausted-long-after-shutdown")
+			live := simrt.LiveLibTasks()
+			sort.Strings(live)
+			first := "-"
+			if len(live) > 0 {
+				first = live[0]
+			}
+			w.Violate("no-quiescence-after-shutdown", "no-quiescence-after-shutdown:"+bs.kind, "the broker was shut down at step %d; %d steps later the system still has not come to rest (live broker goroutines: %v, first %s) (%s)", stopStep, res.Steps-stopStep, len(live), first, bs)
+		}
+	}
 	doStop := func() {
 		stopped = true
+		stopStep = simrt.Stamp()
 		if stopMode == 2 {
 			bs.cancel()
 			w.Fault("parent-cancel")
@@ -406,6 +444,14 @@ func c09Run(w *W) {
 			})
 			w.Fault("cancel-subscriber")
 		}
+	}
+	if deadline {
+		// note when the deadline passes (a harness task, gated like the others)
+		simrt.Spawn("deadline-watch", func() {
+			hrecv(bs.ctx.Done())
+			stopped, stopReturned = true, true
+			stopStep = simrt.Stamp()
+		})
 	}
 	simrt.Quiesce()
 	brokerHistory(w, pubs, subs)
@@ -517,4 +563,5 @@ func init() {
 	// cells: back-end kind x ParallelDispatch x WorkerPoolSize (the first draws of makeBroker)
 	Register(&Workload{Prop: "C09", Name: "progress", MaxSteps: 6000, Cells: []int{6, 2, 3}, Run: c09Run})
 	Register(&Workload{Prop: "C09", Name: "shutdown-faults", Faulty: true, MaxSteps: 6000, Cells: []int{6, 2, 3}, Run: c09Run})
+	Register(&Workload{Prop: "C09", Name: "shutdown-deadline", Faulty: true, MaxSteps: 6000, ClockJump: 40, Run: c09Run})
 }
